@@ -9,6 +9,11 @@ package c20
 //     NodePool/NodeClass generation change),
 // sharing one nodepoolhealth.State, on the controller-runtime fake client with a fake clock.  After every event the
 // persisted condition of both NodePools, the tracker status and both what-if verdicts are observed.
+//
+// The controllers talk to the API server through an interceptor that can make ONE NodePool call of an event fail
+// (409 Conflict / 500 on the NodePool status patch, 500 on the NodePool Get of the lifecycle controller); the harness
+// then does what controller-runtime does: it hands the same object to the controller again.  The controller may also
+// get to look at a NodeClaim at odd times (long after every timeout, exactly when a timeout expires, several times).
 
 import (
 	"context"
@@ -23,6 +28,7 @@ import (
 	"github.com/awslabs/operatorpkg/status"
 	"github.com/go-logr/logr"
 	corev1 "k8s.io/api/core/v1"
+	apierrors "k8s.io/apimachinery/pkg/api/errors"
 	metav1 "k8s.io/apimachinery/pkg/apis/meta/v1"
 	"k8s.io/apimachinery/pkg/runtime"
 	"k8s.io/apimachinery/pkg/runtime/schema"
@@ -33,6 +39,7 @@ import (
 	clocktesting "k8s.io/utils/clock/testing"
 	"sigs.k8s.io/controller-runtime/pkg/client"
 	"sigs.k8s.io/controller-runtime/pkg/client/fake"
+	"sigs.k8s.io/controller-runtime/pkg/client/interceptor"
 	crlog "sigs.k8s.io/controller-runtime/pkg/log"
 
 	_ "sigs.k8s.io/karpenter/pkg/apis"
@@ -56,7 +63,14 @@ func init() {
 // Events (one string per step).  Pools: "a" and "b"; both reference the one TestNodeClass "default".
 //
 //	Sa Sb  a NodeClaim of the pool is launched and its Node registers           (success)
+//	Ta Tb  a NodeClaim of the pool is launched and its Node joins, but the controller gets to look at the NodeClaim only
+//	       long after the registration timeout (it was not running / its queue was backed up)       (ONE success)
+//	Ea Eb  as Ta, but the controller looks exactly when its own requeue for the registration timeout fires (the Node
+//	       joined in between and the reconcile its event triggers had not run yet)                   (ONE success)
+//	Wa Wb  the controller looks at the NodeClaim twice before the Node joins, registers it, and looks at it twice more
+//	       afterwards (node updates, initialization)                                                 (ONE success)
 //	Fa Fb  a NodeClaim of the pool is launched, no Node ever shows up; the registration timeout passes (failure)
+//	Ga Gb  as Fa, but the controller gets to look at the NodeClaim again only long after the timeout (ONE failure)
 //	La Lb  the cloud provider cannot create the instance; the launch timeout passes                     (failure)
 //	Za Zb  the cloud provider cannot create the instance and the controller gets to look at the NodeClaim again only
 //	       after the registration timeout has passed as well (it was not running in between)  (ONE failed attempt)
@@ -66,7 +80,61 @@ func init() {
 //	C      the NodeClass is edited (generation bump); both NodePools are reconciled, as the NodeClass watch does (reset)
 //	R      karpenter restarts: all in-memory state is lost, both NodePools are reconciled (re-hydration)
 //	N      both NodePools are reconciled although nothing changed (resync)
-var poolEvents = []string{"Sa", "Fa", "La", "Za", "Sb", "Fb", "Lb", "Zb", "Xs", "Xf", "Pa", "Pb", "C", "R", "N"}
+//
+// An event may carry ONE fault modifier: the first NodePool call of that kind which a controller issues while it
+// decides the event fails once, and the controller is handed the object again (as controller-runtime does after a
+// requeue / an error):
+//
+//	!  the NodePool status patch answers 409 Conflict (optimistic lock: someone else wrote the NodePool in between)
+//	?  the NodePool status patch answers 500
+//	~  the NodePool Get of the lifecycle controller answers 500            (launch outcomes and Xs/Xf only)
+//
+// A launch attempt is ONE outcome whatever the API server did in between.
+var poolEvents = func() []string {
+	var out []string
+	for _, k := range []string{"S", "T", "E", "W", "F", "G", "L", "Z"} {
+		out = append(out, k+"a", k+"b")
+	}
+	return append(out, "Xs", "Xf", "Pa", "Pb", "C", "R", "N")
+}()
+
+const (
+	faultNone     = 0
+	faultConflict = 1 // '!'
+	faultPatch500 = 2 // '?'
+	faultGet500   = 3 // '~'
+)
+
+// splitEvent parses "Sa!", "C?", "Xs~", "R" into the base event and the fault; ok = false for anything else
+func splitEvent(s string) (base string, fault int, ok bool) {
+	base = s
+	if n := len(s); n > 0 {
+		switch s[n-1] {
+		case '!':
+			base, fault = s[:n-1], faultConflict
+		case '?':
+			base, fault = s[:n-1], faultPatch500
+		case '~':
+			base, fault = s[:n-1], faultGet500
+		}
+	}
+	if !slices.Contains(poolEvents, base) {
+		return "", 0, false
+	}
+	switch base {
+	case "R", "N":
+		// these reconciles never write the NodePool in the scripts' world: no modifier
+		if fault != faultNone {
+			return "", 0, false
+		}
+	case "Pa", "Pb", "C":
+		// the registrationhealth controller is handed the NodePool; it does not Get it
+		if fault == faultGet500 {
+			return "", 0, false
+		}
+	}
+	return base, fault, true
+}
 
 type PoolIn struct {
 	Steps []string `json:"steps"`
@@ -134,7 +202,10 @@ var poolT0 = time.Date(2026, 1, 1, 0, 0, 0, 0, time.UTC)
 type poolEnv struct {
 	ctx   context.Context
 	clk   *clocktesting.FakeClock
-	c     client.Client
+	c     client.Client // the API server as the harness sees it (never fails)
+	api   client.Client // the API server as the controllers see it (interceptor: one-shot NodePool faults)
+	fault int           // armed fault (fault* constants); disarmed when it fires and at the end of the event
+	fired int           // number of injected failures so far
 	cp    *poolProvider
 	st    *nodepoolhealth.State
 	life  *lifecycle.Controller
@@ -173,10 +244,30 @@ func newPoolEnv(full bool) (*poolEnv, error) {
 		WithIndex(&corev1.Node{}, "spec.providerID", func(o client.Object) []string { return []string{o.(*corev1.Node).Spec.ProviderID} }).
 		WithIndex(&v1.NodeClaim{}, "status.providerID", func(o client.Object) []string { return []string{o.(*v1.NodeClaim).Status.ProviderID} }).
 		Build()
+	e.api = interceptor.NewClient(e.c.(client.WithWatch), interceptor.Funcs{
+		Get: func(ctx context.Context, c client.WithWatch, key client.ObjectKey, obj client.Object, opts ...client.GetOption) error {
+			if _, ok := obj.(*v1.NodePool); ok && e.fault == faultGet500 {
+				e.fault, e.fired = faultNone, e.fired+1
+				return apierrors.NewInternalError(errors.New("injected: nodepool get"))
+			}
+			return c.Get(ctx, key, obj, opts...)
+		},
+		SubResourcePatch: func(ctx context.Context, c client.Client, sub string, obj client.Object, patch client.Patch, opts ...client.SubResourcePatchOption) error {
+			if _, ok := obj.(*v1.NodePool); ok && sub == "status" && (e.fault == faultConflict || e.fault == faultPatch500) {
+				f := e.fault
+				e.fault, e.fired = faultNone, e.fired+1
+				if f == faultConflict {
+					return apierrors.NewConflict(schema.GroupResource{Group: "karpenter.sh", Resource: "nodepools"}, obj.GetName(), errors.New("the object has been modified; please apply your changes to the latest version and try again"))
+				}
+				return apierrors.NewInternalError(errors.New("injected: nodepool status patch"))
+			}
+			return c.SubResource(sub).Patch(ctx, obj, patch, opts...)
+		},
+	})
 	e.cp = &poolProvider{CloudProvider: fakecp.NewCloudProvider(), failing: map[string]bool{}}
 	e.boot()
 	// a NodePool is reconciled by the registrationhealth controller as soon as it exists
-	if err := e.reconcilePools("a", "b"); err != nil {
+	if err := e.reconcilePools(faultNone, "a", "b"); err != nil {
 		return nil, err
 	}
 	return e, nil
@@ -185,18 +276,33 @@ func newPoolEnv(full bool) (*poolEnv, error) {
 // boot = process start: fresh in-memory state, fresh controllers
 func (e *poolEnv) boot() {
 	e.st = nodepoolhealth.NewState()
-	e.life = lifecycle.NewController(e.clk, e.c, e.cp, test.NewEventRecorder(), e.st, nil)
-	e.rh = registrationhealth.NewController(e.clk, e.c, e.cp, e.st)
+	e.life = lifecycle.NewController(e.clk, e.api, e.cp, test.NewEventRecorder(), e.st, nil)
+	e.rh = registrationhealth.NewController(e.clk, e.api, e.cp, e.st)
 }
 
-func (e *poolEnv) reconcilePools(pools ...string) error {
+// reconcilePools hands the stored NodePools to the registrationhealth controller, as controller-runtime would: again
+// after a requeue / an error (only an injected fault can cause one here)
+func (e *poolEnv) reconcilePools(fault int, pools ...string) error {
+	e.fault = fault
+	defer func() { e.fault = faultNone }()
 	for _, p := range pools {
-		np := &v1.NodePool{}
-		if err := e.c.Get(e.ctx, client.ObjectKey{Name: poolNames[p]}, np); err != nil {
-			return fmt.Errorf("harness: get nodepool: %w", err)
-		}
-		if _, err := e.rh.Reconcile(e.ctx, np); err != nil {
-			return fmt.Errorf("registrationhealth reconcile: %w", err)
+		for try := 0; ; try++ {
+			np := &v1.NodePool{}
+			if err := e.c.Get(e.ctx, client.ObjectKey{Name: poolNames[p]}, np); err != nil {
+				return fmt.Errorf("harness: get nodepool: %w", err)
+			}
+			fired := e.fired
+			res, err := e.rh.Reconcile(e.ctx, np)
+			if err != nil && e.fired == fired {
+				return fmt.Errorf("registrationhealth reconcile: %w", err)
+			}
+			//nolint:staticcheck
+			if !(err != nil || res.Requeue || e.fired > fired) {
+				break
+			}
+			if try == 3 {
+				return errors.New("registrationhealth reconcile: still asking for a retry after 4 passes")
+			}
 		}
 	}
 	return nil
@@ -235,7 +341,7 @@ func (e *poolEnv) newClaim(pool string, ownerUID types.UID, createFails bool) (*
 	return nc, nil
 }
 
-// reconcileClaim hands the stored NodeClaim to the lifecycle controller, as controller-runtime would
+// reconcileClaim hands the stored NodeClaim to the lifecycle controller once
 func (e *poolEnv) reconcileClaim(name string) (time.Duration, error) {
 	nc := &v1.NodeClaim{}
 	if err := e.c.Get(e.ctx, client.ObjectKey{Name: name}, nc); err != nil {
@@ -243,6 +349,43 @@ func (e *poolEnv) reconcileClaim(name string) (time.Duration, error) {
 	}
 	res, err := e.life.Reconcile(e.ctx, nc)
 	return res.RequeueAfter, err
+}
+
+// decide = the reconcile that is expected to settle the NodeClaim's fate, with the event's fault armed.  As
+// controller-runtime does, the NodeClaim is handed to the controller again when the pass asked for an immediate requeue
+// or returned an error (a NodeClaim that is gone or terminating is no longer this controller's business here:
+// finalization does not touch the NodePool).  tolerate: the pass is expected to return an error anyway (the launch
+// keeps failing).
+func (e *poolEnv) decide(name string, fault int, tolerate bool) error {
+	e.fault = fault
+	defer func() { e.fault = faultNone }()
+	for try := 0; ; try++ {
+		nc := &v1.NodeClaim{}
+		if err := e.c.Get(e.ctx, client.ObjectKey{Name: name}, nc); err != nil {
+			if apierrors.IsNotFound(err) {
+				return nil
+			}
+			return fmt.Errorf("harness: get nodeclaim: %w", err)
+		}
+		if try > 0 && !nc.DeletionTimestamp.IsZero() {
+			return nil
+		}
+		fired := e.fired
+		res, err := e.life.Reconcile(e.ctx, nc)
+		if err != nil && e.fired == fired && !tolerate {
+			return fmt.Errorf("lifecycle reconcile: %w", err)
+		}
+		//nolint:staticcheck
+		if !(err != nil || res.Requeue || e.fired > fired) {
+			return nil
+		}
+		if try == 3 {
+			if tolerate {
+				return nil
+			}
+			return errors.New("lifecycle reconcile: still asking for a retry after 4 passes")
+		}
+	}
 }
 
 func (e *poolEnv) claimState(name string) (registered bool, deleting bool) {
@@ -258,18 +401,7 @@ func (e *poolEnv) claimState(name string) (registered bool, deleting bool) {
 	return registered, !nc.DeletionTimestamp.IsZero()
 }
 
-// success: launch, then the kubelet's Node shows up with the unregistered taint and the controller registers it
-func (e *poolEnv) success(step int, pool string, owner types.UID) error {
-	nc, err := e.newClaim(pool, owner, false)
-	if err != nil {
-		return err
-	}
-	if e.full {
-		if _, err := e.reconcileClaim(nc.Name); err != nil {
-			return fmt.Errorf("lifecycle reconcile (launch): %w", err)
-		}
-	}
-	e.clk.Step(40 * time.Second)
+func (e *poolEnv) createNode(nc *v1.NodeClaim) error {
 	node := &corev1.Node{
 		ObjectMeta: metav1.ObjectMeta{Name: "node-" + nc.Name, UID: types.UID("uid-node-" + nc.Name), CreationTimestamp: metav1.NewTime(e.clk.Now()), Labels: map[string]string{}},
 		Spec:       corev1.NodeSpec{ProviderID: "fake://" + nc.Name, Taints: []corev1.Taint{v1.UnregisteredNoExecuteTaint}},
@@ -277,8 +409,59 @@ func (e *poolEnv) success(step int, pool string, owner types.UID) error {
 	if err := e.c.Create(e.ctx, node); err != nil {
 		return fmt.Errorf("harness: create node: %w", err)
 	}
-	if _, err := e.reconcileClaim(nc.Name); err != nil {
-		return fmt.Errorf("lifecycle reconcile (registration): %w", err)
+	return nil
+}
+
+// longAfter is longer than every timeout of the lifecycle controller
+const longAfter = 6 * time.Hour
+
+// success: launch, then the kubelet's Node shows up with the unregistered taint and the controller registers it.
+// when: "S" the controller looks 40s after the launch; "T" only long after every timeout; "E" exactly when its own
+// requeue for the registration timeout fires; "W" twice before the Node joins and twice more after registering it.
+func (e *poolEnv) success(step int, pool string, owner types.UID, when string, fault int) error {
+	nc, err := e.newClaim(pool, owner, false)
+	if err != nil {
+		return err
+	}
+	var after time.Duration
+	if e.full || when == "E" || when == "W" {
+		if after, err = e.reconcileClaim(nc.Name); err != nil {
+			return fmt.Errorf("lifecycle reconcile (launch): %w", err)
+		}
+	}
+	if when == "W" {
+		e.clk.Step(20 * time.Second)
+		if _, err := e.reconcileClaim(nc.Name); err != nil {
+			return fmt.Errorf("lifecycle reconcile (waiting): %w", err)
+		}
+		if reg, del := e.claimState(nc.Name); reg || del {
+			e.anoms = append(e.anoms, fmt.Sprintf("%d:early", step))
+		}
+	}
+	e.clk.Step(40 * time.Second)
+	if err := e.createNode(nc); err != nil {
+		return err
+	}
+	switch when {
+	case "T":
+		e.clk.Step(longAfter)
+	case "E":
+		if after <= 40*time.Second {
+			e.anoms = append(e.anoms, fmt.Sprintf("%d:no-requeue", step))
+		} else {
+			e.clk.Step(after - 40*time.Second)
+		}
+	}
+	if err := e.decide(nc.Name, fault, false); err != nil {
+		return fmt.Errorf("registration: %w", err)
+	}
+	if when == "W" {
+		for i := 0; i < 2; i++ {
+			e.clk.Step(5 * time.Second)
+			if _, err := e.reconcileClaim(nc.Name); err != nil {
+				return fmt.Errorf("lifecycle reconcile (registered): %w", err)
+			}
+		}
 	}
 	if reg, del := e.claimState(nc.Name); !reg || del {
 		e.anoms = append(e.anoms, fmt.Sprintf("%d:not-registered", step))
@@ -287,7 +470,7 @@ func (e *poolEnv) success(step int, pool string, owner types.UID) error {
 }
 
 // failure: launch (or a failing launch), then nothing until the controller's own timeout; the liveness step gives up
-func (e *poolEnv) failure(step int, pool string, owner types.UID, launchFails bool, late bool) error {
+func (e *poolEnv) failure(step int, pool string, owner types.UID, launchFails bool, late bool, fault int) error {
 	nc, err := e.newClaim(pool, owner, launchFails)
 	if err != nil {
 		return err
@@ -302,7 +485,7 @@ func (e *poolEnv) failure(step int, pool string, owner types.UID, launchFails bo
 	switch {
 	case late:
 		// nobody looks at the NodeClaim for a long time (longer than every timeout of the lifecycle controller)
-		e.clk.Step(6 * time.Hour)
+		e.clk.Step(longAfter)
 	case launchFails:
 		// the reconcile returned the launch error: controller-runtime retries with back-off until the launch timeout
 		e.clk.Step(lifecycle.LaunchTimeout)
@@ -312,8 +495,8 @@ func (e *poolEnv) failure(step int, pool string, owner types.UID, launchFails bo
 		e.anoms = append(e.anoms, fmt.Sprintf("%d:no-requeue", step))
 		e.clk.Step(time.Hour)
 	}
-	if _, err := e.reconcileClaim(nc.Name); err != nil && !launchFails {
-		return fmt.Errorf("lifecycle reconcile (liveness): %w", err)
+	if err := e.decide(nc.Name, fault, launchFails); err != nil {
+		return fmt.Errorf("liveness: %w", err)
 	}
 	if reg, del := e.claimState(nc.Name); reg || !del {
 		e.anoms = append(e.anoms, fmt.Sprintf("%d:not-deleted", step))
@@ -363,40 +546,47 @@ func (e *poolEnv) observe(pool string) ([]int, error) {
 }
 
 func (e *poolEnv) step(i int, ev string) error {
+	base, fault, ok := splitEvent(ev)
+	if !ok {
+		return fmt.Errorf("bad event %q", ev)
+	}
 	e.clk.Step(7 * time.Second)
-	switch ev {
-	case "Sa", "Sb":
-		p := strings.ToLower(ev[1:])
-		return e.success(i, p, poolUID(p))
+	switch base {
+	case "Sa", "Sb", "Ta", "Tb", "Ea", "Eb", "Wa", "Wb":
+		p := base[1:]
+		return e.success(i, p, poolUID(p), base[:1], fault)
 	case "Fa", "Fb":
-		p := strings.ToLower(ev[1:])
-		return e.failure(i, p, poolUID(p), false, false)
+		p := base[1:]
+		return e.failure(i, p, poolUID(p), false, false, fault)
+	case "Ga", "Gb":
+		p := base[1:]
+		return e.failure(i, p, poolUID(p), false, true, fault)
 	case "La", "Lb":
-		p := strings.ToLower(ev[1:])
-		return e.failure(i, p, poolUID(p), true, false)
+		p := base[1:]
+		return e.failure(i, p, poolUID(p), true, false, fault)
 	case "Za", "Zb":
-		p := strings.ToLower(ev[1:])
-		return e.failure(i, p, poolUID(p), true, true)
+		p := base[1:]
+		return e.failure(i, p, poolUID(p), true, true, fault)
 	case "Xs":
-		return e.success(i, "a", "uid-pool-a-previous")
+		return e.success(i, "a", "uid-pool-a-previous", "S", fault)
 	case "Xf":
-		return e.failure(i, "a", "uid-pool-a-previous", false, false)
+		return e.failure(i, "a", "uid-pool-a-previous", false, false, fault)
 	case "Pa", "Pb":
-		p := strings.ToLower(ev[1:])
+		p := base[1:]
 		if err := e.bumpNodePool(p); err != nil {
 			return err
 		}
-		return e.reconcilePools(p)
+		return e.reconcilePools(fault, p)
 	case "C":
 		if err := e.bumpNodeClass(); err != nil {
 			return err
 		}
-		return e.reconcilePools("a", "b")
+		return e.reconcilePools(fault, "a", "b")
 	case "R":
 		e.boot()
-		return e.reconcilePools("a", "b")
+		return e.reconcilePools(faultNone, "a", "b")
 	case "N":
-		return e.reconcilePools("a", "b")
+		return e.reconcilePools(faultNone, "a", "b")
 	}
 	return fmt.Errorf("bad event %q", ev)
 }
@@ -407,7 +597,7 @@ func implPool(raw json.RawMessage) (any, error) {
 		return nil, err
 	}
 	for _, ev := range in.Steps {
-		if !slices.Contains(poolEvents, ev) {
+		if _, _, ok := splitEvent(ev); !ok {
 			return nil, fmt.Errorf("bad event %q", ev)
 		}
 	}
@@ -445,6 +635,11 @@ func implPool(raw json.RawMessage) (any, error) {
 
 // ---- generator ----
 
+var (
+	poolOutcomeKinds = []string{"S", "T", "E", "W", "F", "G", "L", "Z"}
+	poolFaultMarks   = []string{"!", "?", "~"}
+)
+
 func genPool(r *rand.Rand, t core.Tier) any {
 	maxLen := 30
 	if t == core.Thorough {
@@ -457,72 +652,127 @@ func genPool(r *rand.Rand, t core.Tier) any {
 	pRare := []float64{0.0, 0.08, 0.2, 0.4}[r.IntN(4)]
 	// how much of the traffic belongs to pool a
 	pA := []float64{1.0, 0.85, 0.6}[r.IntN(3)]
+	// per-case rate of odd timing: the controller looks at a NodeClaim late / at the edge of a timeout / repeatedly
+	pOdd := []float64{0.0, 0.0, 0.1, 0.3}[r.IntN(4)]
+	// per-case rate of API faults on the NodePool (one per event); failures only / successes too (a success that meets a
+	// fault is the known finding C20-success-lost-on-nodepool-api-failure)
+	pFault := []float64{0.0, 0.0, 0.1, 0.25, 0.5}[r.IntN(5)]
+	faultOnSuccess := r.IntN(3) == 0
 	steps := make([]string, 0, n)
-	// a launch failure that is noticed late: in about 6% of the cases (known finding, see known_findings.json)
-	lateAt := -1
-	if r.IntN(16) == 0 {
-		lateAt = r.IntN(n)
+	mark := func(ev string, marks []string) string {
+		if r.Float64() < pFault {
+			return ev + marks[r.IntN(len(marks))]
+		}
+		return ev
 	}
 	for i := 0; i < n; i++ {
-		if i == lateAt {
-			steps = append(steps, []string{"Za", "Za", "Zb"}[r.IntN(3)])
-			continue
-		}
 		if r.Float64() < pRare {
-			steps = append(steps, []string{"C", "C", "C", "Pa", "Pa", "Pb", "R", "R", "R", "N", "N", "Xs", "Xf"}[r.IntN(13)])
+			ev := []string{"C", "C", "C", "Pa", "Pa", "Pb", "R", "R", "R", "N", "N", "Xs", "Xf"}[r.IntN(13)]
+			switch ev {
+			case "C", "Pa", "Pb":
+				ev = mark(ev, poolFaultMarks[:2])
+			case "Xs", "Xf":
+				ev = mark(ev, poolFaultMarks)
+			}
+			steps = append(steps, ev)
 			continue
 		}
 		p := "a"
 		if r.Float64() >= pA {
 			p = "b"
 		}
+		odd := r.Float64() < pOdd
 		switch {
 		case r.Float64() >= pFail:
-			steps = append(steps, "S"+p)
+			k := "S"
+			if odd {
+				k = []string{"T", "T", "E", "W"}[r.IntN(4)]
+			}
+			if faultOnSuccess {
+				steps = append(steps, mark(k+p, poolFaultMarks))
+			} else {
+				steps = append(steps, k+p)
+			}
 		case r.Float64() < 0.25:
-			steps = append(steps, "L"+p)
+			k := "L"
+			if odd {
+				k = "Z"
+			}
+			steps = append(steps, mark(k+p, poolFaultMarks))
 		default:
-			steps = append(steps, "F"+p)
+			k := "F"
+			if odd {
+				k = "G"
+			}
+			steps = append(steps, mark(k+p, poolFaultMarks))
 		}
 	}
 	return PoolIn{Steps: steps, Full: r.IntN(3) == 0}
 }
 
-// quick: every script of length 6 over {Sa, Fa}, of length 5 over {Sa, Fa, C} and over {Sa, Fa, R}, and of length 3
-// over {Sa, Fa, Pa, N, C, R}; thorough: every script of length 6 over {Sa, Fa, C, R} and of length 4 over
-// {Sa, Fa, Pa, N, C, R}.  All prefixes are checked too, since every step is observed.  (The fake client serialises the
-// API writes of all workers on one global lock, which bounds what the quick tier can afford.)
+// quick: every script of length 6 over {Sa, Fa}, of length 5 over {Sa, Fa, C} and over {Sa, Fa, R}, of length 3
+// over {Sa, Fa, Pa, N, C, R}, of length 5 over {Sa, Fa, Fa!} (a failure whose NodePool patch conflicts), of length 4
+// over {Sa, Fa, Ta, Ea} (registrations the controller sees late), every pair of pool-a events with every fault
+// modifier, and every "F F x S S S" / "F S x S S S" with x any pool-a outcome with any modifier (does x occupy exactly
+// one slot of the window?); thorough: every script of length 6 over {Sa, Fa, C, R}, of length 4 over
+// {Sa, Fa, Pa, N, C, R}, of length 6 over {Sa, Fa, Fa!}, of length 5 over {Sa, Fa, Ta, Ea}, the pairs as in quick and
+// every script of length 3 over {Sa, Sa!, Sa~, Fa, Fa!, Fa~, Ta, Ta!, Ea, La!, Za!, Pa!, C!, R}.  All prefixes are checked too, since every step is observed.  (The fake client
+// serialises the API writes of all workers on one global lock, which bounds what the quick tier can afford.)
 func enumPool(t core.Tier) []any {
 	var out []any
 	seen := map[string]bool{}
+	add := func(steps []string) {
+		k := strings.Join(steps, " ")
+		if !seen[k] {
+			seen[k] = true
+			out = append(out, PoolIn{Steps: append([]string{}, steps...)})
+		}
+	}
 	var rec func(alpha []string, prefix []string, n int)
 	rec = func(alpha []string, prefix []string, n int) {
 		if len(prefix) == n {
-			k := strings.Join(prefix, " ")
-			if !seen[k] {
-				seen[k] = true
-				out = append(out, PoolIn{Steps: append([]string{}, prefix...)})
-			}
+			add(prefix)
 			return
 		}
 		for _, a := range alpha {
 			rec(alpha, append(prefix, a), n)
 		}
 	}
+	// every pool-a event with every modifier it admits
+	var all, outcomes []string
+	for _, k := range poolOutcomeKinds {
+		for _, m := range append([]string{""}, poolFaultMarks...) {
+			outcomes = append(outcomes, k+"a"+m)
+		}
+	}
+	all = append(all, outcomes...)
+	all = append(all, "Pa", "Pa!", "Pa?", "C", "C!", "C?", "R", "N", "Xs", "Xs~", "Xf", "Xf!", "Xf~")
 	if t == core.Thorough {
 		rec([]string{"Sa", "Fa", "C", "R"}, nil, 6)
 		rec([]string{"Sa", "Fa", "Pa", "N", "C", "R"}, nil, 4)
-		return out
+		rec([]string{"Sa", "Fa", "Fa!"}, nil, 6)
+		rec([]string{"Sa", "Fa", "Ta", "Ea"}, nil, 5)
+		rec(all, nil, 2)
+		rec([]string{"Sa", "Sa!", "Sa~", "Fa", "Fa!", "Fa~", "Ta", "Ta!", "Ea", "La!", "Za!", "Pa!", "C!", "R"}, nil, 3)
+	} else {
+		rec([]string{"Sa", "Fa"}, nil, 6)
+		rec([]string{"Sa", "Fa", "C"}, nil, 5)
+		rec([]string{"Sa", "Fa", "R"}, nil, 5)
+		rec([]string{"Sa", "Fa", "Pa", "N", "C", "R"}, nil, 3)
+		rec([]string{"Sa", "Fa", "Fa!"}, nil, 5)
+		rec([]string{"Sa", "Fa", "Ta", "Ea"}, nil, 4)
+		rec(all, nil, 2)
 	}
-	rec([]string{"Sa", "Fa"}, nil, 6)
-	rec([]string{"Sa", "Fa", "C"}, nil, 5)
-	rec([]string{"Sa", "Fa", "R"}, nil, 5)
-	rec([]string{"Sa", "Fa", "Pa", "N", "C", "R"}, nil, 3)
+	for _, x := range outcomes {
+		add([]string{"Fa", "Fa", x, "Sa", "Sa", "Sa"})
+		add([]string{"Fa", "Sa", x, "Sa", "Sa", "Sa"})
+	}
 	return out
 }
 
-// circumstances of pool a along the script, judged by a plain replay of the events (labels only — never used as an
-// oracle): what the generator reached
+// poolReplay is a plain replay of pool a's events (labels and the non-triviality rule only — never used as an oracle):
+// the circumstances the script reached.  It follows what the controllers do today, including the known finding (a
+// registration that meets an API fault on the NodePool is not counted).
 func poolCircumstances(steps []string) map[string]bool {
 	seen := map[string]bool{}
 	var window []bool
@@ -536,16 +786,37 @@ func poolCircumstances(steps []string) map[string]bool {
 		}
 		return n
 	}
+	pushed := func(v bool) []bool {
+		w := append(append([]bool{}, window...), v)
+		if len(w) > nodepoolhealth.BufferSize {
+			w = w[1:]
+		}
+		return w
+	}
 	push := func(v bool) {
-		window = append(window, v)
-		if len(window) > nodepoolhealth.BufferSize {
-			window = window[1:]
+		if len(window) == nodepoolhealth.BufferSize {
 			seen["window-wrapped"] = true
 		}
+		window = pushed(v)
 	}
 	for _, s := range steps {
-		switch s {
-		case "Sa":
+		base, fault, ok := splitEvent(s)
+		if !ok {
+			continue
+		}
+		if fault != faultNone {
+			seen["fault:"+s[len(s)-1:]] = true
+		}
+		switch base {
+		case "Sa", "Ta", "Ea", "Wa":
+			if base != "Sa" {
+				seen["success-seen-late/repeatedly"] = true
+			}
+			wouldPatch := 2*fails(pushed(true)) < nodepoolhealth.BufferSize && cond != 1
+			if fault == faultGet500 || (fault != faultNone && wouldPatch) {
+				seen["fault-hits-success(known finding: not counted)"] = true
+				continue
+			}
 			if cond == 1 {
 				seen["success-while-True"] = true
 			}
@@ -559,7 +830,17 @@ func poolCircumstances(steps []string) map[string]bool {
 				}
 				cond = 1
 			}
-		case "Fa", "La", "Za":
+		case "Fa", "Ga", "La", "Za":
+			if base == "Ga" || base == "Za" {
+				seen["failure-seen-late"] = true
+			}
+			wouldPatch := 2*fails(pushed(false)) >= nodepoolhealth.BufferSize && cond != 2
+			if fault == faultGet500 || (fault != faultNone && wouldPatch) {
+				seen["fault-hits-failure(retried)"] = true
+				if wouldPatch && fault != faultGet500 {
+					seen["patch-fault-on-the-failure-that-turns-False"] = true
+				}
+			}
 			if cond == 1 {
 				seen["failure-while-True"] = true
 			}
@@ -573,6 +854,9 @@ func poolCircumstances(steps []string) map[string]bool {
 				seen["isolated-failure-stays-True"] = true
 			}
 		case "C", "Pa":
+			if fault != faultNone {
+				seen["fault-hits-reset(retried)"] = true
+			}
 			if cond == 0 && len(window) > 0 {
 				seen["reset-while-Unknown-with-outcomes"] = true
 			}
@@ -600,7 +884,7 @@ func poolCircumstances(steps []string) map[string]bool {
 func poolOp() *core.Op {
 	return &core.Op{
 		Name: "c20.pool",
-		Doc:  "event scripts (registrations, registration/launch timeouts, NodePool/NodeClass edits, restarts, resyncs, foreign claims; two NodePools) through the real nodeclaim lifecycle controller and the real nodepool.registrationhealth controller on the fake client; persisted NodeRegistrationHealthy condition, tracker status and what-if verdicts after every event",
+		Doc:  "event scripts (registrations and registration/launch timeouts that the controller sees in time, late, at the edge of the timeout or repeatedly; one-shot API faults on the NodePool Get / status patch followed by the retry; NodePool/NodeClass edits, restarts, resyncs, foreign claims; two NodePools) through the real nodeclaim lifecycle controller and the real nodepool.registrationhealth controller on the fake client; persisted NodeRegistrationHealthy condition, tracker status and what-if verdicts after every event",
 		N: func(t core.Tier) int {
 			if t == core.Thorough {
 				return 1000
@@ -610,16 +894,20 @@ func poolOp() *core.Op {
 		Gen:            genPool,
 		Enum:           enumPool,
 		Impl:           implPool,
-		ExhaustiveNote: "quick: every event script of length 6 over {Sa,Fa}, of length 5 over {Sa,Fa,C} and over {Sa,Fa,R}, of length 3 over {Sa,Fa,Pa,N,C,R}; thorough: length 6 over {Sa,Fa,C,R} and length 4 over {Sa,Fa,Pa,N,C,R}; every prefix is observed",
-		Rule:           "random scripts (length 1..30 quick, 1..60 thorough; per-case failure rate 8%..85%, rare-event rate 0..40%, share of pool a 60..100%) + exhaustive short scripts; non-trivial = pool a's condition leaves Unknown at least once and at least one reset/restart/resync/foreign event occurs, or the window wraps",
+		ExhaustiveNote: "quick: every event script of length 6 over {Sa,Fa}, of length 5 over {Sa,Fa,C}, {Sa,Fa,R} and {Sa,Fa,Fa!}, of length 4 over {Sa,Fa,Ta,Ea}, of length 3 over {Sa,Fa,Pa,N,C,R}, every pair of pool-a events with every fault modifier, and F F x S S S / F S x S S S for every pool-a outcome x with every modifier; thorough: length 6 over {Sa,Fa,C,R} and {Sa,Fa,Fa!}, length 5 over {Sa,Fa,Ta,Ea}, length 4 over {Sa,Fa,Pa,N,C,R}, the pairs and the x-scripts as in quick, length 3 over {Sa,Sa!,Sa~,Fa,Fa!,Fa~,Ta,Ta!,Ea,La!,Za!,Pa!,C!,R}; every prefix is observed",
+		Rule:           "random scripts (length 1..30 quick, 1..60 thorough; per-case failure rate 8%..85%, rare-event rate 0..40%, share of pool a 60..100%, odd-timing rate 0/0/10/30% (T,E,W,G,Z instead of S,F,L), fault rate 0/0/10/25/50% per event (! ? ~ uniformly; on successes too in 1/3 of the cases)) + exhaustive short scripts; non-trivial = pool a's condition leaves Unknown at least once and at least one reset/restart/resync/foreign/late/faulted event occurs, or the window wraps",
 		Nontrivial: func(raw json.RawMessage, _ any) bool {
 			var in PoolIn
 			json.Unmarshal(raw, &in)
 			c := poolCircumstances(in.Steps)
 			rare := false
 			for _, s := range in.Steps {
-				switch s {
-				case "C", "Pa", "R", "N", "Xs", "Xf":
+				base, fault, _ := splitEvent(s)
+				switch base {
+				case "C", "Pa", "R", "N", "Xs", "Xf", "Ta", "Ea", "Wa", "Ga", "Za":
+					rare = true
+				}
+				if fault != faultNone {
 					rare = true
 				}
 			}
@@ -632,7 +920,9 @@ func poolOp() *core.Op {
 			l := []string{fmt.Sprintf("len<=%d", ((len(in.Steps)/10)+1)*10), fmt.Sprintf("full=%v", in.Full)}
 			evs := map[string]bool{}
 			for _, s := range in.Steps {
-				evs[s] = true
+				if base, _, ok := splitEvent(s); ok {
+					evs[base] = true
+				}
 			}
 			for s := range evs {
 				l = append(l, "ev:"+s)
@@ -649,6 +939,18 @@ func poolOp() *core.Op {
 			var out []any
 			for _, c := range core.ShrinkList(in.Steps) {
 				out = append(out, PoolIn{Steps: c, Full: in.Full})
+			}
+			// drop one fault modifier / replace an oddly timed event by the plain one
+			for i, s := range in.Steps {
+				base, fault, ok := splitEvent(s)
+				if !ok {
+					continue
+				}
+				if fault != faultNone {
+					c := append([]string{}, in.Steps...)
+					c[i] = base
+					out = append(out, PoolIn{Steps: c, Full: in.Full})
+				}
 			}
 			if in.Full {
 				out = append(out, PoolIn{Steps: in.Steps})
